@@ -41,8 +41,8 @@ const K = {
   tryCatch:  (i, J) => `function f${i}() { try { return ${J}; } catch (e) { return null; } }\n__out.k${i} = () => f${i}();`,
   labelled:  (i, J) => `let vl${i};\nlbl${i}: { vl${i} = ${J}; break lbl${i}; }\n__out.k${i} = () => vl${i};`,
   cond:      (i, J) => `const a${i} = (w) => (w ? ${J} : null);\n__out.k${i} = () => a${i}(true);`,
-  asyncArrow:(i, J) => `const aa${i} = async () => ${J};\n__out.k${i} = () => { const pr = aa${i}(); return typeof pr.then; };`,
-  asyncFn:   (i, J) => `async function af${i}() { return ${J}; }\n__out.k${i} = () => typeof af${i}().then;`,
+  asyncArrow:(i, J) => `const aa${i} = async () => ${J};\n__out.k${i} = () => { const pr = aa${i}(); return __env.settle(pr); };`,
+  asyncFn:   (i, J) => `async function af${i}() { return ${J}; }\n__out.k${i} = () => __env.settle(af${i}());`,
   generator: (i, J) => `function* gn${i}() { yield ${J}; }\n__out.k${i} = () => gn${i}().next().value;`,
   classMethod: (i, J) => `class M${i} { m() { return ${J}; } }\n__out.k${i} = () => new M${i}().m();`,
   classGetter: (i, J) => `class G${i} { get g() { return ${J}; } }\n__out.k${i} = () => new G${i}().g;`,
@@ -85,6 +85,11 @@ const K = {
   nestedBlocks: (i, J) => `let nb${i};\n{ { nb${i} = ${J}; } }\n__out.k${i} = () => nb${i};`,
   ifElse: (i, J) => `let ie${i};\nif (!c) { ie${i} = null; } else { ie${i} = ${J}; }\n__out.k${i} = () => ie${i};`,
   forClassic: (i, J) => `const fc${i} = [];\nfor (let q = 0; q < 2; q++) fc${i}.push(${J});\n__out.k${i} = () => fc${i};`,
+  arrowDestructDefault: (i, J) => `const ad${i} = ({ p = ${J} } = {}) => p;\n__out.k${i} = () => ad${i}();`,
+  arrowArrayDefault: (i, J) => `const ay${i} = ([q = ${J}] = []) => q;\n__out.k${i} = () => ay${i}();`,
+  arrowRestDefault: (i, J) => `const ar2${i} = (...[r = ${J}]) => r;\n__out.k${i} = () => ar2${i}();`,
+  arrowNestedDefault: (i, J) => `const an2${i} = ({ o: { p = ${J} } = {} } = {}) => p;\n__out.k${i} = () => an2${i}();`,
+  fnArrayDefault: (i, J) => `function fa${i}([q = ${J}] = []) { return q; }\n__out.k${i} = () => fa${i}();`,
   // depth-2 contexts
   fnInArrow: (i, J) => `const a${i} = () => { function inner() { return ${J}; } return inner(); };\n__out.k${i} = () => a${i}();`,
   arrowInFn: (i, J) => `function f${i}() { const inner = () => ${J}; return inner(); }\n__out.k${i} = () => f${i}();`,
@@ -101,6 +106,18 @@ const D = {
   arrowBlockNoJsx: { tpl: (i) => `const d${i} = () => { const z = 2; return z; };\n__out.k${i} = () => d${i}();` },
   classNoJsx:  { tpl: (i) => `class D${i} { m() { return 1; } }\n__out.k${i} = () => new D${i}().m();` },
   blockNoJsx:  { tpl: (i) => `{ const z${i} = 3; __out.z${i} = z${i}; }\n__out.k${i} = () => __out.z${i};` },
+  // comments in front of a statement that carry annotations of other tool chains (none of them names a vnode factory)
+  cmtRuntime:  { once: true, group: 'cmt', tpl: (i) => `/* @jsxRuntime classic */\nconst cr${i} = 1;\n__out.k${i} = () => cr${i};` },
+  cmtImportSource: { once: true, group: 'cmt', tpl: (i) => `/** @jsxImportSource vue */\nconst ci${i} = 2;\n__out.k${i} = () => ci${i};` },
+  cmtFragLine: { once: true, group: 'cmt', tpl: (i) => `// @jsxFrag Fragment\nconst cf${i} = 3;\n__out.k${i} = () => cf${i};` },
+  cmtProse:    { once: true, group: 'cmt', tpl: (i) => `/* eslint-disable */\n/* we do not set the @jsx pragma here */\nconst cp${i} = 4;\n__out.k${i} = () => cp${i};` },
+  // statement lists that are empty (nothing to visit in them)
+  emptyFn:     { tpl: (i) => `function en${i}() {}\n__out.k${i} = () => en${i}();` },
+  emptyClassMethod: { tpl: (i) => `class Ec${i} { m() {} static {} }\n__out.k${i} = () => new Ec${i}().m();` },
+  emptyCatch:  { tpl: (i) => `let ek${i} = 0;\ntry { ek${i} = 1; } catch {} finally {}\n__out.k${i} = () => ek${i};` },
+  emptyIfLoop: { tpl: (i) => `if (c) {} else {}\nfor (const q of []) {}\n__out.k${i} = () => 1;` },
+  emptyArrowBlock: { tpl: (i) => `const eb${i} = () => {};\n__out.k${i} = () => eb${i}();` },
+  emptySwitch: { tpl: (i) => `switch (0) { case 0: default: }\n{}\n__out.k${i} = () => 1;` },
   userSlot:    { once: true, tpl: (i) => `const _slot = 'user_slot';\n__out.k${i} = () => _slot;` },
   userIsSlot:  { once: true, tpl: (i) => `const _isSlot = 'user_isSlot';\n__out.k${i} = () => _isSlot;` },
   userCreateVNode: { once: true, tpl: (i) => `const _createVNode = 'user_createVNode';\n__out.k${i} = () => _createVNode;` },
@@ -143,12 +160,12 @@ const D = {
   selfAssignArrowParam: { tpl: (i) => `const ap${i} = (p) => (p = <Comp>{p}</Comp>);\n__out.k${i} = () => ap${i}(x);`, jsx: true },
   selfAssignArrowLet: { tpl: (i) => `let sq${i} = x;\nconst aq${i} = () => (sq${i} = <B>{sq${i}}</B>);\n__out.k${i} = () => aq${i}();`, jsx: true },
   // `await` / `yield` of the enclosing function: fine among an element's children, not available inside a slot function
-  awaitInElement: { tpl: (i) => `async function ae${i}() { return <div>{await idf(x)}</div>; }\n__out.k${i} = () => typeof ae${i}().then;`, jsx: true },
-  awaitInAttr:    { tpl: (i) => `async function aa2${i}() { return <Comp id={await idf(x)} />; }\n__out.k${i} = () => typeof aa2${i}().then;`, jsx: true },
-  awaitInSlot:    { tpl: (i) => `async function as${i}() { return <Comp><div>{await idf(x)}</div></Comp>; }\n__out.k${i} = () => typeof as${i}().then;`, jsx: true, diag: true },
-  awaitSoleChild: { tpl: (i) => `async function ac${i}() { return <Comp>{await idf(x)}</Comp>; }\n__out.k${i} = () => typeof ac${i}().then;`, jsx: true, diag: true },
+  awaitInElement: { tpl: (i) => `async function ae${i}() { return <div>{await idf(x)}</div>; }\n__out.k${i} = () => __env.settle(ae${i}());`, jsx: true },
+  awaitInAttr:    { tpl: (i) => `async function aa2${i}() { return <Comp id={await idf(x)} />; }\n__out.k${i} = () => __env.settle(aa2${i}());`, jsx: true },
+  awaitInSlot:    { tpl: (i) => `async function as${i}() { return <Comp><div>{await idf(x)}</div></Comp>; }\n__out.k${i} = () => __env.settle(as${i}());`, jsx: true, diag: true },
+  awaitSoleChild: { tpl: (i) => `async function ac${i}() { return <Comp>{await idf(x)}</Comp>; }\n__out.k${i} = () => __env.settle(ac${i}());`, jsx: true, diag: true },
   yieldInSlot:    { tpl: (i) => `function* ys${i}() { return <Comp>{yield 1}{x}</Comp>; }\n__out.k${i} = () => typeof ys${i}().next;`, jsx: true, diag: true },
-  awaitInNestedFn: { tpl: (i) => `async function an${i}() { return <Comp>{async () => await idf(x)}</Comp>; }\n__out.k${i} = () => typeof an${i}().then;`, jsx: true },
+  awaitInNestedFn: { tpl: (i) => `async function an${i}() { return <Comp>{async () => await idf(x)}</Comp>; }\n__out.k${i} = () => __env.settle(an${i}());`, jsx: true },
   pragmaLike:  { tpl: (i) => `const pr${i} = <div class={c1}>{xx}</div>;\n__out.k${i} = () => pr${i};`, jsx: true },
 };
 
@@ -169,7 +186,7 @@ const T = {
   asExpr:    (i) => `const ae${i} = (x as any) satisfies unknown;\n__out.k${i} = () => ae${i};`,
   typedArrow:(i) => `const ta${i} = (p: number): any => <Comp>{f()}</Comp>;\n__out.k${i} = () => ta${i}(1);`,
   genericArrow: (i) => `const ga${i} = <Q,>(p: Q): any => <Comp>{xx}</Comp>;\n__out.k${i} = () => ga${i}(1);`,
-  asyncTyped:(i) => `const at${i} = async (p?: number): Promise<any> => <Comp>{f()}</Comp>;\n__out.k${i} = () => typeof at${i}().then;`,
+  asyncTyped:(i) => `const at${i} = async (p?: number): Promise<any> => <Comp>{f()}</Comp>;\n__out.k${i} = () => __env.settle(at${i}());`,
   callDc:    (i) => `defineComponent((props: { q: boolean }) => () => null);\n__out.k${i} = () => 1;`,
   dcDupAny:  (i) => `interface DP${i} { v: string }\ninterface DP${i} { v: any }\nconst DQ${i} = defineComponent((props: DP${i}) => () => null);\n__out.k${i} = () => 1;`,
   dcInterUnknown: (i) => `const DU${i} = defineComponent((props: { v: string; w: number } & { v?: unknown; w: boolean }) => () => null);\n__out.k${i} = () => 1;`,
@@ -209,7 +226,10 @@ function makeEnv() {
   };
   // stub for a configured pragma (`hh`): same observable record as createVNode
   const hh = (type, props, children) => ({ __v_isVNode: true, type, props: props || null, children: children === undefined ? null : children, dirs: null });
-  return { bound, names, mv0: 'mv0', globals: { hh } };
+  // state of a promise, read synchronously (an async function that throws before its first await returns an already
+  // rejected promise; left alone it would end the worker as an unhandled rejection)
+  const settle = (p) => { if (!p || typeof p.then !== 'function') return 'not-a-promise'; p.catch(() => {}); const t = require('util').inspect(p, { depth: 0 }); const m = /<rejected> (\w+)/.exec(t); return m ? 'rejected:' + m[1] : /<pending>/.test(t) ? 'pending' : 'fulfilled'; };
+  return { bound, names, mv0: 'mv0', globals: { hh }, settle };
 }
 
 // loads the module and activates observation point(s); returns {load?, values: [per item: [v1, v2]]}
